@@ -253,6 +253,8 @@ def oracle_lin2(line, out, tol=0.0):
     return None
 
 def oracle(line, out, tol=0.0):
+    if line.startswith("linhist "):
+        return oracle_hist(line, out, tol)
     return (oracle_lin1 if line.startswith("lin1 ") else oracle_lin2)(line, out, tol)
 
 def oracle_float(line, out):
@@ -262,25 +264,55 @@ def oracle_float(line, out):
 def _absq(c):   # upper bound of |c| as float
     return math.hypot(float(c[0]), float(c[1]))
 
+def _vals(tok):
+    """[(re, im)] of a protocol combination, None when a denominator is not a power of two"""
+    if tok == "-":
+        return []
+    out = []
+    for term in tok.split(","):
+        a, b, d = (int(x) for x in term.split("*")[0].split("_"))
+        if d <= 0 or d & (d - 1):
+            return None
+        out.append((Fraction(a, d), Fraction(b, d)))
+    return out
+
+def _EXP(vals):
+    """all components are integer multiples of 2**-E"""
+    return max([x.denominator.bit_length() - 1 for v in vals for x in v] + [0])
+
+def _SUM(vals):
+    return sum(abs(v[0]) + abs(v[1]) for v in vals)
+
+_SPAN = 2 ** 44     # 53-bit significands, minus room for 2**n (n <= 8) in trace() and for rounding-free partial sums
+
 def exact_domain_ok(line):
-    """On this input every floating-point operation of the source is exact and the tolerances of
-    the source (`abs(c) > 1e-12`, `np.isclose`) coincide with exact (in)equality."""
+    """On this input every floating-point operation of the source is exact and the tolerances of the source
+    (`abs(c) > 1e-12`, `abs(c) < 1e-12`, `np.isclose` with atol 1e-8 / rtol 1e-5) coincide with exact
+    (in)equality.  Argument: all coefficients of an operand are integer multiples of 2**-E with sum of moduli S;
+    every sum the source forms is then a multiple of 2**-E bounded by S (exact if S*2**E < 2**44), every product
+    of a@b / c*a a multiple of 2**-(EA+EB) bounded by SA*SB; a non-zero multiple of 2**-36 exceeds 1e-11 > 1e-12."""
     t = line.split(" ")
-    toks = [x for x in ([t[1]] if t[0] == "lin1" else [t[1], t[2]])]
-    for tk in toks:
-        if tk == "-":
-            continue
-        for term in tk.split(","):
-            a, b, d = (int(x) for x in term.split("*")[0].split("_"))
-            if d & (d - 1) or d > 2 ** 12 or abs(a) >= 2 ** 20 or abs(b) >= 2 ** 20:
-                return False
-        if tk.count(",") >= 20:
-            return False
+    ops = [_vals(t[1])] if t[0] == "lin1" else [_vals(t[1]), _vals(t[2])]
+    if any(v is None for v in ops) or any(len(v) > 20 for v in ops):
+        return False
+    E = [_EXP(v) for v in ops]
+    S = [_SUM(v) for v in ops]
+    if max(E) > 36 or sum(S) * 2 ** max(E) >= _SPAN:
+        return False
     if t[0] == "lin1":
-        a, b, d = (int(x) for x in t[2].split("_"))
-        if d & (d - 1) or d > 2 ** 12 or abs(a) >= 2 ** 20 or abs(b) >= 2 ** 20:
+        c = _vals(t[2] + "*I")
+        if c is None or E[0] + _EXP(c) > 36 or S[0] * _SUM(c) * 2 ** (E[0] + _EXP(c)) >= _SPAN:
             return False
+        # printing: np.isclose(x, 0) (atol 1e-8) and np.isclose(imag, +-1) (rtol 1e-5) must be exact tests
+        for re_, im_ in collected(t[1]).values():
+            for x in (re_, im_):
+                if x != 0 and abs(x) <= Fraction(4, 10 ** 8):
+                    return False
+            if abs(im_) != 1 and abs(abs(im_) - 1) <= Fraction(1, 10 ** 4):
+                return False
         return True
+    if ops[0] and ops[1] and (E[0] + E[1] > 36 or S[0] * S[1] * 2 ** (E[0] + E[1]) >= _SPAN):
+        return False
     ca, cb = collected(t[1]), collected(t[2])
     for k in set(ca) & set(cb):
         x, y = ca[k], cb[k]
@@ -441,6 +473,305 @@ def gen_print(rng, N):
             lines.append(l)
     return lines
 
+def gen_small(rng, N):
+    """coefficients, sums and products of modulus in (1e-12, 1e-6]: far above the source's 1e-12 threshold,
+    far below O(1); alone and next to O(1) terms"""
+    def tiny(D=None):
+        D = D or rng.randint(22, 30)
+        lo, hi = -(-6 * 2 ** D // 10 ** 8), 9 * 2 ** D // 10 ** 7
+        f = lambda: Fraction(rng.choice([1, -1]) * rng.randint(lo, hi), 2 ** D)
+        m = rng.random()
+        return (f(), Fraction(0)) if m < 0.5 else (Fraction(0), f()) if m < 0.7 else (f(), f())
+    def small(D):
+        f = lambda: Fraction(rng.choice([1, -1]) * rng.randint(1, 12), 2 ** D)
+        m = rng.random()
+        return (f(), Fraction(0)) if m < 0.5 else (Fraction(0), f()) if m < 0.7 else (f(), f())
+    def big():
+        return (Fraction(rng.choice([1, -1, 2, 3, -2])), Fraction(rng.choice([0, 0, 2, -2])))
+    lines = []
+    while len(lines) < N:
+        n = rng.choice([1, 2, 2, 3])
+        pool = [rand_str(rng, n) for _ in range(3)] + ["I" * n]
+        pick = lambda: rng.choice(pool) if rng.random() < 0.7 else rand_str(rng, n)
+        m = rng.random()
+        if m < 0.45:       # products of small coefficients
+            D = rng.randint(14, 18)
+            a = [(small(D), pick()) for _ in range(rng.randint(1, 3))]
+            b = [(small(D), pick()) for _ in range(rng.randint(1, 3))]
+            if rng.random() < 0.4:
+                rng.choice([a, b]).append((big(), pick()))
+            rng.shuffle(a); rng.shuffle(b)
+            l = f"lin2 {show(a)} {show(a) if rng.random() < 0.15 else show(b)}"
+        elif m < 0.6:      # tiny against nothing / against O(1)
+            D = rng.randint(22, 30)
+            a = [(tiny(D), pick()) for _ in range(rng.randint(1, 3))]
+            b = [] if rng.random() < 0.5 else [(big(), pick())]
+            l = f"lin2 {show(a)} {show(b)}" if rng.random() < 0.5 else f"lin2 {show(b)} {show(a)}"
+        else:              # unary observations of tiny (+ O(1)) combinations
+            D = rng.randint(22, 30)
+            a = [(tiny(D), pick()) for _ in range(rng.randint(1, 3))]
+            if rng.random() < 0.3:
+                c, q = rng.choice(a); a.append(((-c[0], -c[1]), q))
+            if rng.random() < 0.5:
+                a.append(((Fraction(rng.choice([1, -1, 2, 3])), Fraction(rng.choice([0, 0, 0, 2, -1]))), pick()))
+            rng.shuffle(a)
+            c = rng.choice([(Fraction(1), Fraction(0)), (Fraction(-1), Fraction(0)), (Fraction(0), Fraction(1)),
+                            (Fraction(2), Fraction(0)), (Fraction(1, 2), Fraction(0))])
+            l = f"lin1 {show(a)} {ctok(*c)} {rand_str(rng, n)}"
+        if exact_domain_ok(l):
+            lines.append(l)
+    return lines
+
+# ------------------------------------------------------------------ multi-step histories, parser notation
+def spell(rng, s, sparse=None):
+    """a text the parser expands to the dense string `s`"""
+    n = len(s)
+    if n == 0 or not (rng.random() < 0.5 if sparse is None else sparse):
+        return s
+    if all(ch == "I" for ch in s):
+        return rng.choice([f"I_{n}", f"Is{n}", f"I_1s{n}"])
+    toks, last = [], 0
+    for i, ch in enumerate(s):
+        if ch != "I":
+            if i == last and rng.random() < 0.3:
+                toks.append(ch)                 # dense continuation
+            else:
+                toks.append(f"{ch}_{i + 1}")
+            last = i + 1
+    if last < n or rng.random() < 0.3:
+        toks.append(f"s{n}")
+    return "".join(toks)
+
+_TXT = re.compile(r"^((?:[IXYZ](?:_[0-9]+)?)*)(?:s([0-9]+))?$")
+def expand(text):
+    """own expansion of the notation (dense letters, L_k = letter at 1-based position k, sN = pad to N);
+    None = not a well-formed text"""
+    m = _TXT.match(text)
+    if not m:
+        return None
+    out = ""
+    for tok in re.findall(r"[IXYZ](?:_[0-9]+)?", m.group(1)):
+        if "_" in tok:
+            k = int(tok[2:])
+            if k <= len(out):
+                return None
+            out += "I" * (k - len(out) - 1) + tok[0]
+        else:
+            out += tok
+    if m.group(2) is not None:
+        if int(m.group(2)) < len(out):
+            return None
+        out += "I" * (int(m.group(2)) - len(out))
+    return out
+
+_SITE = {}
+for _a in "IXYZ":
+    for _b in "IXYZ":
+        _p = _S[_a] @ _S[_b]
+        for _c in "IXYZ":
+            for _k, _ph in enumerate([(1, 0), (0, -1), (-1, 0), (0, 1)]):
+                if np.array_equal(_p, complex(*_ph) * _S[_c]):
+                    _SITE[(_a, _b)] = (_ph, _c)
+
+def cmul(x, y):
+    return (x[0] * y[0] - x[1] * y[1], x[0] * y[1] + x[1] * y[0])
+
+def dprod(da, db):
+    """product of two exact coefficient dictionaries (own per-site product table)"""
+    out = {}
+    for p, x in da.items():
+        for q, y in db.items():
+            ph, r = (Fraction(1), Fraction(0)), []
+            for a, b in zip(p, q):
+                f, c = _SITE[(a, b)]
+                ph = cmul(ph, (Fraction(f[0]), Fraction(f[1]))); r.append(c)
+            r = "".join(r)
+            v = cmul(cmul(x, y), ph)
+            o = out.get(r, (Fraction(0), Fraction(0)))
+            out[r] = (o[0] + v[0], o[1] + v[1])
+    return {k: v for k, v in out.items() if v != (0, 0)}
+
+def text_dict(tok):
+    """(exact dictionary, set of lengths) of a text combination; None if some text is ill-formed"""
+    d = {}
+    if tok == "-":
+        return d, set()
+    for t in tok.split(","):
+        c, hx_ = t.split("*")
+        s_ = expand(unhx(hx_))
+        if s_ is None:
+            return None
+        v = coef_exact(c)
+        o = d.get(s_, (Fraction(0), Fraction(0)))
+        d[s_] = (o[0] + v[0], o[1] + v[1])
+    return d, {len(k) for k in d}
+
+def dadd(da, db):
+    out = dict(da)
+    for k, v in db.items():
+        o = out.get(k, (Fraction(0), Fraction(0)))
+        out[k] = (o[0] + v[0], o[1] + v[1])
+    return {k: v for k, v in out.items() if v != (0, 0)}
+
+def hist_states(line):
+    """own exact semantics of a history: list of (expect_error, dict | None) per step, None once the history
+    leaves the property's domain (strings of different lengths meet)"""
+    parts = line[8:].split("|")
+    out = []
+    first = text_dict(parts[0])
+    cur = {k: v for k, v in first[0].items() if v != (0, 0)} if first else {}
+    lens = set(first[1]) if first else set()
+    out.append((first is None, None if len(lens) > 1 else cur))
+    dead = len(lens) > 1
+    for op in parts[1:]:
+        t = op.split(" ")
+        err = False
+        if not dead:
+            if t[0] in ("iadd", "add", "mm", "rmm"):
+                td = text_dict(t[1])
+                if td is None:
+                    err = True
+                else:
+                    if len(lens | td[1]) > 1:
+                        dead = True
+                    else:
+                        lens |= td[1]
+                        d2 = {k: v for k, v in td[0].items() if v != (0, 0)}
+                        cur = dadd(cur, d2) if t[0] in ("iadd", "add") else dprod(cur, d2) if t[0] == "mm" else dprod(d2, cur)
+            elif t[0] == "cancel":
+                cur = {}
+            elif t[0] == "smul":
+                c = coef_exact(t[1])
+                cur = {k: v for k, v in ((k, cmul(v, c)) for k, v in cur.items()) if v != (0, 0)}
+            elif t[0] == "h":
+                cur = {k: (v[0], -v[1]) for k, v in cur.items()}
+        out.append((err, None if dead else cur))
+    return out
+
+def hist_domain_ok(line):
+    """every state of the history (and its square) has components k/2**j with j <= 12, |k| < 2**30: all float
+    operations exact, every non-zero value far from the source's tolerances"""
+    for err, d in hist_states(line):
+        if d is None:
+            continue
+        for v in d.values():
+            for x in v:
+                if x.denominator > 2 ** 12 or x.denominator & (x.denominator - 1) or abs(x.numerator) >= 2 ** 30:
+                    return False
+            if abs(v[1]) != 1 and abs(abs(v[1]) - 1) <= Fraction(1, 10 ** 4):
+                return False
+    return True
+
+def oracle_hist(line, out, tol=0.0):
+    states = hist_states(line)
+    outs = out.split(" || ")
+    if len(outs) != len(states):
+        return f"history answered {len(outs)} steps for {len(states)}"
+    prev = None
+    for k, ((err, d), o) in enumerate(zip(states, outs)):
+        if d is None:
+            return None
+        st, ob = o.split("@", 1)
+        if ob.startswith("?"):
+            return f"step {k}: state is a {ob[1:]}"
+        f = fields(ob)
+        bad = [x for x, v in f.items() if v.startswith("?")]
+        if bad or st.startswith("?"):
+            return f"step {k}: implementation returned {st if st.startswith('?') else f[bad[0]]}"
+        if err != st.startswith("!"):
+            return f"step {k}: {'an ill-formed text was accepted' if err else 'raised ' + st[1:]}"
+        if err and prev is not None and ob != prev:
+            return f"step {k}: a failed step changed the combination"
+        prev = ob
+        if f["simp"].startswith("!") or f["len"].startswith("!"):
+            return f"step {k}: simplify()/len raised"
+        got = {p: v for p, v in collected(f["simp"]).items() if v != (0, 0)}
+        if got != d:
+            return f"step {k}: the combination denotes {f['simp']}, not the matrix of the history so far"
+        own = {len(p) for _, p in parse_terms(f["simp"])}
+        if len(own) > 1:
+            return None
+        nonempty = f["len"] != "0"
+        n = own.pop() if own else (len(next(iter(d))) if d else 0)
+        want_tr = d.get("I" * n, (Fraction(0), Fraction(0)))
+        want_tr = (want_tr[0] * 2 ** n, want_tr[1] * 2 ** n)
+        if f["tr"].startswith("!") or coef_exact(f["tr"]) != want_tr:
+            return f"step {k}: trace() = {f['tr']} but the matrix has trace {ctok(*want_tr)}"
+        if f["zero"] != ("F" if d else "T"):
+            return f"step {k}: is_zero() = {f['zero']} but the matrix is {'non-' if d else ''}zero"
+        if nonempty and f["size"] != str(n):
+            return f"step {k}: get_size() = {f['size']} for a combination on {n} qubits"
+        want_sq = dprod(d, {p: (v[0], -v[1]) for p, v in d.items()})
+        if f["sq"].startswith("!") or {p: v for p, v in collected(f["sq"]).items() if v != (0, 0)} != want_sq:
+            return f"step {k}: x @ x.h does not denote the matrix product: {f['sq']}"
+        if nonempty and {len(p) for _, p in parse_terms(f["sq"])} != {n}:
+            return f"step {k}: x @ x.h is on the wrong number of qubits: {f['sq']}"
+        if nonempty and 1 <= n <= 3:
+            if f["mat"].startswith("!"):
+                return f"step {k}: get_matrix() raised {f['mat'][1:]}"
+            want = dmat([(complex(float(v[0]), float(v[1])), p) for p, v in d.items()], n)
+            if not Cmp(0).eq(parse_mat(f["mat"]), want):
+                return f"step {k}: get_matrix() is not the matrix of the history so far"
+        if f["str"].startswith("0*"):
+            if d or f["str"] != "0*" + "I" * (n if nonempty else 0):
+                return f"step {k}: str() = {f['str']!r} for a {'non-' if d else ''}zero combination on {n} qubits"
+        else:
+            try:
+                pr = parse_printed(f["str"])
+            except Exception as e:
+                return f"step {k}: str() is outside the print grammar: {f['str']!r} ({e})"
+            for p in set(pr) | set(d):
+                tv = d.get(p, (Fraction(0), Fraction(0))); sv = pr.get(p, (Fraction(0), Fraction(0)))
+                if not (g8_ok(tv[0], sv[0]) and g8_ok(tv[1], sv[1], imag=True)):
+                    return f"step {k}: str() = {f['str']!r} does not denote the matrix (coefficient of {p or '-'})"
+    return None
+
+def gen_hist(rng, N):
+    def coef():
+        m = rng.random()
+        re_ = Fraction(rng.choice([1, -1, 2, 3, -2, 1, 5]), rng.choice([1, 1, 2, 4]))
+        im_ = Fraction(rng.choice([1, -1, 2, -3]), rng.choice([1, 2]))
+        return (re_, Fraction(0)) if m < 0.6 else (Fraction(0), im_) if m < 0.75 else (re_, im_)
+    def comb(n, pool, kmax=3, first_sparse=None, bad=False):
+        ts = []
+        for i in range(rng.randint(1, kmax)):
+            p = rng.choice(pool) if rng.random() < 0.7 else rand_str(rng, n)
+            txt = spell(rng, p, first_sparse if i == 0 else None)
+            ts.append((coef(), txt))
+        if bad:
+            i = rng.randrange(len(ts))
+            ts[i] = (ts[i][0], rng.choice(["X_0", "Z_2X_1", "XXs1", "Xq", "X_", "s", "Y_2_3", "x"]) if n < 3 else rng.choice(["X_0s3", "Z_3X_3", "XXXXs3", "XsY"]))
+        return ",".join(f"{ctok(*c)}*{hx(t)}" for c, t in ts)
+    lines = []
+    while len(lines) < N:
+        n = rng.choice([1, 2, 2, 3, 3])
+        pool = [rand_str(rng, n) for _ in range(2)] + ["I" * n, "I" * n]
+        m = rng.random()
+        ops = []
+        if m < 0.25:      # first term in positional notation, observed at once
+            init = comb(n, pool + ["I" * (n - 1) + "Z", "Z" + "I" * (n - 1)], first_sparse=True)
+        elif m < 0.5:     # accumulated from the empty combination
+            init = "-"
+            ops = [f"iadd {comb(n, pool)}" for _ in range(rng.randint(1, 3))]
+        elif m < 0.7:     # cancelled to nothing, then extended
+            init = comb(n, pool)
+            ops = ["cancel"] + [f"iadd {comb(n, pool)}" for _ in range(rng.randint(1, 2))]
+        else:
+            init = comb(n, pool) if rng.random() < 0.8 else "-"
+        for _ in range(rng.randint(0, 3)):
+            r = rng.random()
+            if r < 0.3: ops.append(f"iadd {comb(n, pool, bad=rng.random() < 0.1)}")
+            elif r < 0.4: ops.append(f"add {comb(n, pool)}")
+            elif r < 0.5: ops.append("cancel")
+            elif r < 0.6: ops.append(f"smul {ctok(*rng.choice([(Fraction(-1), Fraction(0)), (Fraction(0), Fraction(1)), (Fraction(2), Fraction(0)), (Fraction(1, 2), Fraction(0))]))}")
+            elif r < 0.75: ops.append(f"{rng.choice(['mm', 'rmm'])} {comb(n if rng.random() < 0.9 else n + 1, pool if rng.random() < 0.9 else ['X' * (n + 1)], 2)}")
+            elif r < 0.85: ops.append("simp")
+            else: ops.append("h")
+        l = "linhist " + "|".join([init] + ops)
+        if hist_domain_ok(l):
+            lines.append(l)
+    return lines
+
 def gen_exhaustive(thorough):
     coefs = [(Fraction(1), Fraction(0)), (Fraction(-1), Fraction(0)), (Fraction(0), Fraction(1))]
     strs = ["I", "X", "Y"] if not thorough else ["I", "X", "Y", "Z"]
@@ -516,6 +847,19 @@ def gen_float(rng, N):
 
 # ------------------------------------------------------------------ shrinking / tags
 def shrink(line):
+    if line.startswith("linhist "):
+        parts = line[8:].split("|")
+        for k in range(len(parts) - 1, 0, -1):         # drop a step
+            yield "linhist " + "|".join(parts[:k] + parts[k + 1:])
+        for k, part in enumerate(parts):               # drop a term of a combination
+            t = part.split(" ")
+            tok = t[-1]
+            if "*" in tok and "," in tok:
+                terms = tok.split(",")
+                for j in range(len(terms)):
+                    u = t[:-1] + [",".join(terms[:j] + terms[j + 1:])]
+                    yield "linhist " + "|".join(parts[:k] + [" ".join(u)] + parts[k + 1:])
+        return
     t = line.split(" ")
     idx = [1] if t[0] == "lin1" else [1, 2]
     for i in idx:
@@ -545,6 +889,9 @@ def shrink(line):
             yield " ".join(u)
 
 def tag(line, out):
+    if line.startswith("linhist "):
+        last = out.split(" || ")[-1]
+        return "hist steps=" + str(min(out.count(" || "), 4)) + (" err" if "!ValueError@" in out else "") + (" zero" if "zero=T" in last else "")
     f = fields(out)
     if line.startswith("lin1 "):
         return "lin1 zero=" + f.get("zero", "?") + " mat=" + ("ok" if not f.get("mat", "!").startswith("!") else f["mat"])
@@ -568,6 +915,8 @@ def build_streams(rng, tier):
         Stream("exhaustive-small", gen_exhaustive(thorough), h, oracle, **kw),
         Stream("dyadic-random", gen_exact(rng, 100000 if thorough else 3500), h, oracle, **kw),
         Stream("print-stress", gen_print(rng, 20000 if thorough else 800), h, oracle, **kw),
+        Stream("small-magnitude", gen_small(rng, 12000 if thorough else 700), h, oracle, **kw),
+        Stream("histories", gen_hist(rng, 12000 if thorough else 700), h, oracle, **kw),
         Stream("malformed", gen_malformed(rng, 4000 if thorough else 500), h, oracle, **kw),
         Stream("generic-float", gen_float(rng, 50000 if thorough else 1500), h, oracle_float, model=False, **kw),
     ]
@@ -575,7 +924,11 @@ def build_streams(rng, tier):
 RULE = ("corpus witnesses; exhaustive pairs of combinations of <=2 terms over {1,-1,i}x{I,X,Y} and all 256 pairs of 2-qubit "
         "strings; seeded random combinations of <=6 (respelled: <=14) terms with dyadic Gaussian-rational coefficients k/2^j "
         "(|k|<2^8, j<=6), n<=4 (a few n<=8 without dense oracle), including respellings of the same matrix, near misses, "
-        "cancelling lists, a@a; print-stress: combinations with pairwise disjoint matrix supports and coefficients of magnitude "
+        "cancelling lists, a@a; small-magnitude: coefficients / sums / products of modulus in (1e-12, 1e-6] (k/2^j, j to 30; "
+        "products of k/2^14..18), alone and next to O(1) terms, compared exactly; histories: one object built in steps (from "
+        "the empty combination, from a cancelled sum, += / + / @ / * / .h / simplify) with term strings in the parser's "
+        "positional notation (Z_2s3) and ill-formed texts, observed after every step against an exact coefficient "
+        "dictionary kept by the oracle; print-stress: combinations with pairwise disjoint matrix supports and coefficients of magnitude "
         "1e-6..3e13 incl. exact %.8g ties and carries (exponent notation, half-even); malformed (mixed lengths, empty strings, empty lists); generic double coefficients compared "
         "with numpy only at 1e-9; non-trivial = at least two terms and a non-identity letter")
 
@@ -585,7 +938,11 @@ def main(tier):
             "the theorems are about exact Gaussian-rational coefficients: floating-point rounding is not modelled; the "
             "thresholds abs(c)>1e-12 / abs(c)<1e-12 and np.isclose of the source are modelled as c!=0 / c=0 / equality",
             "model and implementation are compared exactly on dyadic coefficients for which every float operation of the "
-            "source is exact and the tolerances coincide with exact comparison (guard exact_domain_ok, Fractions)",
+            "source is exact and the tolerances coincide with exact comparison (guards exact_domain_ok / hist_domain_ok / "
+            "print_domain_ok, Fractions): operands are multiples of 2^-E (E<=36, E_a+E_b<=36 for products) with bounded "
+            "sums, so every non-zero collected value exceeds 1e-11; this includes moduli in (1e-12, 1e-6]",
+            "term strings are dense IXYZ texts in lin1/lin2; the histories stream also feeds the parser's positional "
+            "notation and ill-formed texts through the constructor (model: Parser.mkPS, property C17)",
             "printing (__str__): only C12_str_partial is proved (zero case; otherwise the text is the join of the "
             "formatted terms of a list denoting the same matrix); that the text can be parsed back to that list holds up "
             "to %.8g and the np.isclose snapping of the source (imaginary part printed as +-i within rtol 1e-5, parts "
